@@ -861,6 +861,119 @@ func readerFaultSection(x *h.X) {
 	}
 }
 
+// ---- production-size segments (E1): 4 KiB and 1 MiB, the sizes of the key templates -------------------------
+// The BFS sections use tiny segments so that the state graph closes; this section runs the real template sizes
+// over write / read partitions around the segment boundaries, against the reference codec in both directions.
+func largeSegmentSection(x *h.X) {
+	type big struct {
+		name string
+		c    cfg
+	}
+	mkBig := func(scheme string, ks int, seg int, tagAlg string, tag int) cfg {
+		c := mk(scheme, ks, ks, "SHA256", tagAlg, tag, 0, 0, "keyset")
+		c.SegmentSize = seg
+		return c
+	}
+	bigs := []big{{"AES128-GCM-HKDF-4KB", mkBig("GCMHKDF", 16, 4096, "", 16)}, {"AES256-CTR-HMAC-SHA256-4KB", mkBig("CTRHMAC", 32, 4096, "SHA256", 32)},
+		{"AES256-GCM-HKDF-1MB", mkBig("GCMHKDF", 32, 1<<20, "", 16)}, {"AES128-CTR-HMAC-SHA256-1MB", mkBig("CTRHMAC", 16, 1<<20, "SHA256", 32)}}
+	b := bigs[x.Choose("config", len(bigs))]
+	c := b.c
+	x.Label(b.name)
+	F, S := c.FirstPlain(), c.OtherPlain()
+	lens := []int{F - 1, F, F + 1, F + S, F + S + 1, F + 2*S + 17}
+	if c.SegmentSize > 1<<16 {
+		lens = []int{F + 1}
+		if x.Thorough() {
+			lens = []int{F, F + 1, F + S + 1}
+		}
+	}
+	L := h.Pick(x, "plaintext-length", lens)
+	wpart := h.Pick(x, "write-chunk", []int{0, S - 1, S + 1, 1000, F}) // 0 = one Write
+	rpart := h.Pick(x, "read-chunk", []int{0, S + 1, 1000, 4096})      // 0 = io.ReadAll
+	p, err := build(c, 1, 1)
+	if err != nil {
+		x.Fail("construct", "%s: %v", b.name, err)
+		return
+	}
+	x.NonTrivial()
+	pt := plain(L)
+	aad := []byte("aad-5")
+	var sink bytes.Buffer
+	w, err := p.NewEncryptingWriter(&sink, aad)
+	if err != nil {
+		x.Fail("construct", "%s: NewEncryptingWriter: %v", b.name, err)
+		return
+	}
+	for off := 0; off < L || (L == 0 && off == 0); {
+		n := L - off
+		if wpart > 0 && wpart < n {
+			n = wpart
+		}
+		if m, err := w.Write(pt[off : off+n]); err != nil || m != n {
+			x.Fail("write-result", "%s len=%d: Write(%d) = (%d, %v)", b.name, L, n, m, err)
+			return
+		}
+		off += n
+		if L == 0 {
+			break
+		}
+	}
+	if err := w.Close(); err != nil {
+		x.Fail("close-error", "%s len=%d: %v", b.name, L, err)
+		return
+	}
+	x.Eval(1)
+	if got, err := c.StreamDecrypt(aad, sink.Bytes()); err != nil || !bytes.Equal(got, pt) {
+		x.Fail("format", "%s len=%d write-chunk=%d: independent decoder fails on tink's stream: %v", b.name, L, wpart, err)
+	}
+	// tink decodes the reference stream, read in chunks
+	salt, prefix := fixedSalt(c)
+	ct := c.StreamEncrypt(salt, prefix, aad, pt)
+	for _, stream := range [][]byte{ct, sink.Bytes()} {
+		r, err := p.NewDecryptingReader(bytes.NewReader(stream), aad)
+		if err != nil {
+			x.Fail("construct", "%s: NewDecryptingReader: %v", b.name, err)
+			return
+		}
+		var out []byte
+		if rpart == 0 {
+			out, err = io.ReadAll(r)
+		} else {
+			buf := make([]byte, rpart)
+			for {
+				n, e := r.Read(buf)
+				out = append(out, buf[:n]...)
+				if e == io.EOF {
+					break
+				}
+				if e != nil {
+					err = e
+					break
+				}
+			}
+		}
+		x.Eval(1)
+		if err != nil || !bytes.Equal(out, pt) {
+			x.Fail("wrong-plaintext", "%s len=%d read-chunk=%d: reading a valid stream gives %d bytes, err=%v", b.name, L, rpart, len(out), err)
+		}
+	}
+	// truncation at the last segment boundary and one flipped byte in the middle must not end in clean EOF
+	segs := c.StreamSegments(L)
+	for _, bad := range [][]byte{ct[:segs[len(segs)-1][0]], func() []byte { b := bytes.Clone(ct); b[len(b)/2] ^= 1; return b }()} {
+		r, err := p.NewDecryptingReader(bytes.NewReader(bad), aad)
+		if err != nil {
+			continue
+		}
+		out, err := io.ReadAll(r)
+		x.Eval(1)
+		if err == nil {
+			x.Fail("clean-eof-on-manipulated-stream", "%s len=%d: manipulated stream read to a clean EOF (%d bytes)", b.name, L, len(out))
+		} else if len(out) > L || !bytes.Equal(out, pt[:len(out)]) {
+			x.Fail("unauthentic-plaintext", "%s len=%d: bytes delivered before the error are not a plaintext prefix", b.name, L)
+		}
+	}
+}
+
 func main() {
 	if os.Getenv("VERIF_C07_DEBUG") != "" {
 		fmt.Println(len(configs(false)), len(configs(true)))
@@ -873,5 +986,6 @@ func main() {
 			{Name: "manipulation", Body: manipSection, Bound: -1},
 			{Name: "writer-faults", Body: writerFaultSection, Bound: -1},
 			{Name: "reader-faults", Body: readerFaultSection, Bound: -1},
+			{Name: "template-size-segments", Body: largeSegmentSection, Bound: -1},
 		})
 }
